@@ -78,6 +78,9 @@ Step(e) ==
          /\ slots' = [s \in 1..e.nslots |-> Fresh]
          /\ skip' = FALSE
          /\ errs' = errs
+    \* self-contained: a &str whose bytes are not UTF-8 is a C04 finding whatever else went wrong before in this run
+    [] skip /\ e.ev = "push" /\ ~e.panic /\ e.bad_utf8 ->
+         errs' = Err(e, "C04", "invalid-utf8-handed-out") /\ UNCHANGED <<meta, slots, skip>>
     [] skip -> UNCHANGED <<meta, slots, skip, errs>>
     [] e.ev = "push" ->
          LET sl == slots[e.s]
